@@ -19,6 +19,9 @@ def main():
         tier = 'quick'
     seed = int(os.environ.get('VERIF_SEED', '1') or 1)
     t0 = time.time()
+    import glob
+    for f in glob.glob(os.path.join(lib.BUILD, 'replay', prop + '-*')):
+        os.unlink(f)
     try:
         import checks
         fn = checks.REGISTRY.get(prop)
